@@ -1,11 +1,15 @@
 #!/bin/bash
-# tools/seedsweep.sh [tier] : run every seeded change under seeded/ against the check of its property; one line each
+# tools/seedsweep.sh [tier] [jobs] : run every seeded change under seeded/ against the check of its property; one line each
+# (jobs > 1 runs several changes side by side, each in its own scratch worktree; output order is then completion order)
 cd "$(dirname "$0")/.."
-TIER=${1:-quick}
-for d in seeded/*/; do
+TIER=${1:-quick}; JOBS=${2:-1}
+one() {
+  d=$1; TIER=$2
   n=$(basename $d); id=${n%%-*}
   out=$(tools/seedtest.sh $d/patch.diff $id $TIER 2>&1); rc=$?
   kinds=$(echo "$out" | grep -o "kind=[^ ]*" | sort -u | tr '\n' ' ')
   wall=$(echo "$out" | grep -o "wall=[0-9.]*s" | tail -1)
   echo "$n rc=$rc $wall $kinds"
-done
+}
+export -f one
+ls -d seeded/*/ | xargs -P $JOBS -I{} bash -c 'one {} '"$TIER"
